@@ -781,8 +781,13 @@ fn dump_crate<'tcx>(tcx: TyCtxt<'tcx>, name: &str) -> String {
                 let def = tcx.adt_def(did);
                 let variants: Vec<String> = def
                     .variants()
-                    .iter()
-                    .map(|v| {
+                    .iter_enumerated()
+                    .map(|(vidx, v)| {
+                        let discr = if def.is_enum() {
+                            format!("{}", def.discriminant_for_variant(tcx, vidx).val)
+                        } else {
+                            "null".to_string()
+                        };
                         let fs: Vec<String> = v
                             .fields
                             .iter()
@@ -804,8 +809,9 @@ fn dump_crate<'tcx>(tcx: TyCtxt<'tcx>, name: &str) -> String {
                             })
                             .collect();
                         format!(
-                            "{{\"name\":{},\"fields\":{}}}",
+                            "{{\"name\":{},\"discr\":{},\"fields\":{}}}",
                             js(v.name.as_str()),
+                            discr,
                             jarr(fs)
                         )
                     })
